@@ -251,6 +251,93 @@ def r7_label_order(ctx):
     ctx.ob(gs.where, "sequence under intervals is fetched per interval from the indexed file and DNA-encoded", ok, "", key="C10-R7|extract")
 
 
+def _ceil_div_kind(expr, num: str, den: str):
+    """'ceil' / 'floor' / None for an expression meant to count the bins of `num` with bins of `den`"""
+    c = sym.canon(expr)
+    ceil_forms = [f"({num} + {den} - 1) // {den}", f"-(-{num} // {den})", f"-((-{num}) // {den})", f"np.ceil({num} / {den}).astype(int)", f"(({num} - 1) // {den}) + 1"]
+    if c in {sym.canon(sym.parse_expr(t)) for t in ceil_forms}:
+        return "ceil"
+    stripped = expr
+    while isinstance(stripped, ast.Call) and u(stripped.func) in ("np.maximum", "max", "np.minimum", "min", "int") and stripped.args:
+        nxt = [a for a in stripped.args if not (sym.poly(a).is_const())]
+        if len(nxt) != 1:
+            break
+        stripped = nxt[0]
+    if sym.canon(stripped) in {sym.canon(sym.parse_expr(f"{num} // {den}")), sym.canon(sym.parse_expr(f"({num} / {den}).astype(int)"))}:
+        return "floor"
+    return None
+
+
+def r8_bins_size_strand(ctx):
+    """(a) binned genome: a chromosome of size s has ceil(s / bin) bins (a floor loses the last partial bin and shifts every later chromosome's bins);
+    (b) the genome size used for whole-genome arrays is the sum over exactly the chromosomes the global offsets are built from;
+    (c) tables derived from stranded genomic intervals keep the strand flag (it decides reversal / reverse-complement on '-')."""
+    ix = ctx.index
+    init = ix.func("bionumpy.genomic_data.binned_genome", "BinnedGenome.__init__")
+    env = local_env(init.node)
+    nb = [n for n in body_walk(init.node) if isinstance(n, ast.Assign) and u(n.targets[0]) == "self._n_bins"]
+    ctx.need(len(nb) == 1, "BinnedGenome.__init__: bin count assignment not found")
+    bs = init.params[2]
+    kind = _ceil_div_kind(nb[0].value, "chrom_sizes", bs)
+    if kind is None:
+        raise Unrecognised(f"{init.where}: number of bins has an unknown form: {u(nb[0].value)}")
+    ctx.ob(init.where, "bins per chromosome = ceil(size / bin_size): the last, partial bin exists", kind == "ceil", u(nb[0]), key="C10-R8|bins-ceil")
+    ok = sym.same(env.get("chrom_sizes"), f"np.array(list({init.params[1]}.chrom_sizes.values()))")
+    ctx.ob(init.where, "bin counts are computed from the context's own per-chromosome sizes, in its order", ok, "", key="C10-R8|bins-sizes")
+    off = [n for n in body_walk(init.node) if isinstance(n, ast.Assign) and u(n.targets[0]) == "self._bin_offsets"]
+    ok = len(off) == 1 and sym.same(off[0].value, "np.insert(np.cumsum(self._n_bins), 0, 0)")
+    ctx.ob(init.where, "a chromosome's first bin follows the previous chromosome's last bin (exclusive cumulative sum)", ok, u(off[0]) if off else "", key="C10-R8|bin-offsets")
+    cnt = ix.func("bionumpy.genomic_data.binned_genome", "BinnedGenome.count")
+    cenv = local_env(cnt.node)
+    e, pf = cnt.params[1], cnt.params[2]
+    ok = sym.same(cenv.get("bin_nr"), f"self._bin_offsets[self._genome_context.encoding.encode({e}.chromosome).raw()] + getattr({e}, {pf}) // self._bin_size", {})
+    ok = ok or (sym.canon(inline_locals(cenv.get("bin_nr"), cenv)) == sym.canon(sym.parse_expr(f"self._bin_offsets[self._genome_context.encoding.encode({e}.chromosome).raw()] + getattr({e}, {pf}) // self._bin_size")))
+    ctx.ob(cnt.where, "a location falls in bin (first bin of its chromosome) + position // bin_size", ok, "", key="C10-R8|bin-of-location")
+    # (b)
+    gc = ix.cls("bionumpy.genomic_data.genome_context", "GenomeContext")
+    sz = gc.methods["size"]
+    r = single_return_expr(sz.node)
+    ginit = gc.methods["__init__"]
+    go = [n for n in body_walk(ginit.node) if isinstance(n, ast.Assign) and u(n.targets[0]) == "self._global_offset"]
+    ctx.need(len(go) == 1 and isinstance(go[0].value, ast.Call) and go[0].value.args, "GenomeContext.__init__: global offset construction not found")
+    table = u(go[0].value.args[0])
+    if r is not None and sym.canon(r) == sym.canon(sym.parse_expr(f"sum({table}.values())")):
+        ok, detail = True, u(r)
+    elif r is not None and isinstance(r, ast.Attribute) and u(r.value) == "self":
+        asg = [n for n in body_walk(ginit.node) if isinstance(n, ast.Assign) and u(n.targets[0]) == u(r)]
+        ctx.need(len(asg) == 1, f"GenomeContext: cached size {u(r)} is not assigned exactly once in __init__")
+        v = asg[0].value
+        tdef = [n for n in body_walk(ginit.node) if isinstance(n, ast.Assign) and u(n.targets[0]) == table]
+        ok = sym.canon(v) == sym.canon(sym.parse_expr(f"sum({table}.values())")) and bool(tdef) and asg[0].lineno > tdef[-1].lineno
+        detail = u(asg[0])
+        if not ok and not (isinstance(v, ast.Call) and u(v.func) == "sum"):
+            raise Unrecognised(f"{ginit.where}: cached genome size has an unknown form: {u(asg[0])}")
+    elif r is not None and isinstance(r, ast.Call) and u(r.func) == "sum" and len(r.args) == 1 and isinstance(r.args[0], ast.Call) and u(r.args[0].func).endswith(".values"):
+        ok, detail = False, u(r)      # a sum over some other table
+    else:
+        raise Unrecognised(f"{sz.where}: genome size has an unknown form: {u(r) if r is not None else '?'}")
+    ctx.ob(sz.where, f"genome size = sum of the sizes in `{table}`, the very table the global offsets are built from (ignored contigs are in neither)", ok, detail, key="C10-R8|size-table")
+    # (c)
+    GI = "bionumpy.genomic_data.genomic_intervals"
+    n = 0
+    for cname, data_attr in (("GenomicIntervalsFull", "_intervals"), ("GenomicLocationGlobal", "_locations")):
+        ci = ix.cls(GI, cname)
+        for mname, fi in ci.methods.items():
+            if mname in ("__init__",) or any(d in ("classmethod", "staticmethod") for d in fi.decorators):
+                continue
+            for c in func_calls(fi.node):
+                fn = u(c.func)
+                if fn not in ("self.__class__", "self.from_intervals", cname, f"{cname}.from_intervals", "self.from_fields"):
+                    continue
+                if not c.args or f"self.{data_attr}" not in u(c.args[0]):
+                    continue
+                n += 1
+                passed = [u(a) for a in c.args[2:3]] + [u(k.value) for k in c.keywords if k.arg == "is_stranded"]
+                ctx.ob(fi.where, f"{cname}.{mname} derives a table from the receiver's entries and hands on the receiver's strand flag", "self._is_stranded" in passed,
+                       u(c)[:140], key=f"C10-R8|strand-flag|{cname}|{mname}")
+    ctx.floor("derivations of stranded tables examined", n, 5)
+
+
 RULES = [
     ("C10-R1", r1_lockstep),
     ("C10-R2", r2_global_taint),
@@ -259,4 +346,5 @@ RULES = [
     ("C10-R5", r5_strand_selectors),
     ("C10-R6", r6_resolve),
     ("C10-R7", r7_label_order),
+    ("C10-R8", r8_bins_size_strand),
 ]
